@@ -94,21 +94,52 @@ def r1_area(ctx):
 
 
 def r2_interp(ctx):
+    """decided on values: each arm of `linear` is evaluated on symbols; spelling (if/else order, early return, temporaries) is immaterial"""
+    from .sem import Sem, split_call, place, and_binop
     fn = ctx.src.func(PSD, "interp")
-    arms = [s for s in fn.body if isinstance(s, ast.If) and ast.unparse(s.test) == "linear"]
-    if len(arms) != 1:
-        raise AnchorError("interp: `if linear`")
-    lin, log = arms[0].body, arms[0].orelse
-    t = "".join(utext(s) for s in log)
-    ok = "interp1d(np.log(Freq),np.log(PSD)," in t and "psdfull=ifunc(np.log(freq))" in t
-    ctx.check(ok, "interp (log-log): both axes of the specification and the query frequencies are taken to log", arms[0])
-    ok = "pv=(freq>=Freq[0])&(freq<=Freq[-1])" in t and "psdfull[pv]=np.exp(psdfull[pv])" in t
-    ctx.check(ok, "interp (log-log): exp() is applied to exactly the in-range results (out-of-range stays at the fill value 0)", arms[0])
-    ok = "fill_value=0" in t and "bounds_error=False" in t
-    ctx.check(ok, "interp (log-log): out-of-range queries give 0, not an error", arms[0], nontrivial=False)
-    t = "".join(utext(s) for s in lin)
-    ok = "interp1d(Freq,PSD,axis=0" in t and "psdfull=ifunc(freq)" in t and "np.log" not in t and "np.exp" not in t
-    ctx.check(ok, "interp (linear): no log/exp on either side", arms[0])
+    SIG = ["x", "y", "kind", "axis", "copy", "bounds_error", "fill_value", "assume_sorted"]
+    res = {}
+    for lin in (True, False):
+        def cond(test, ev, lin=lin):
+            if isinstance(test, ast.Name) and test.id == "linear":
+                return lin
+            return None
+        S = Sem(ctx, fn, cond=cond, binop=and_binop, pinned={"Freq": F.sym("Freq"), "PSD": F.sym("PSD")})
+        # spec is unpacked into Freq / PSD before the arms: pin them so both arms speak about the same symbols
+        mk = S.calls("interp1d")
+        use = S.calls("ifunc")
+        res[lin] = (S, mk, use)
+    # ---- log-log arm
+    S, mk, use = res[False]
+    ok = len(mk) == 1 and len(use) == 1
+    a = place(mk[0][1], mk[0][2], SIG) if ok else {}
+    ok = ok and S.same(a.get("x"), "np.log(Freq)") and S.same(a.get("y"), "np.log(PSD)") and len(use[0][1]) == 1 and S.same(use[0][1][0], "np.log(freq)")
+    ctx.check(ok, "interp (log-log): both axes of the specification and the query frequencies are taken to log", mk[0][3] if mk else fn,
+              None if ok else {k: repr(v) for k, v in a.items()})
+    ret = S.ret()
+    cells = S.cells("psdfull")
+    inr = "(freq >= Freq[0]) & (freq <= Freq[-1])"
+    ok = ret is not None and S.same(ret, "psdfull") and len(cells) == 1 and S.same(cells[0][0], inr) and S.same(cells[0][1], f"np.exp(psdfull[{inr}])") \
+        and S.same(S.init("psdfull"), use[0] and S.ev.ev(use[0][3]))
+    ctx.check(ok, "interp (log-log): exp() is applied to exactly the in-range results (out-of-range stays at the fill value 0)", cells[0][2] if cells else fn,
+              None if ok else {"stores": [(repr(c[0]), repr(c[1])) for c in cells], "returned": repr(ret)})
+    ok = S.same(a.get("fill_value"), "0") and S.same(a.get("bounds_error"), "False")
+    ctx.check(ok, "interp (log-log): out-of-range queries give 0, not an error", mk[0][3] if mk else fn, nontrivial=False)
+    # ---- linear arm
+    S, mk, use = res[True]
+    ok = len(mk) == 1 and len(use) == 1
+    a = place(mk[0][1], mk[0][2], SIG) if ok else {}
+    retv = S.ret()
+    if retv is not None and S.same(retv, "psdfull") and S.init("psdfull") is not None:
+        retv = S.init("psdfull")          # a buffer name: its value is what it was created from (no stores in this arm, checked below)
+    ok = ok and S.same(a.get("x"), "Freq") and S.same(a.get("y"), "PSD") and S.same(use[0][1][0], "freq") and S.same(retv, S.ev.ev(use[0][3])) \
+        and not S.cells("psdfull") and not [c for c in S.ev.calls if c[0] in ("np.log", "np.exp", "math.log", "math.exp", "np.log10")]
+    ctx.check(ok, "interp (linear): no log/exp on either side", mk[0][3] if mk else fn, None if ok else {k: repr(v) for k, v in a.items()})
+
+
+def la_x(S, lf_):
+    from .sem import place
+    return place(lf_[0][1], lf_[0][2], ["b", "a", "x", "axis"]).get("x")
 
 
 def _slice_chain(expr):
@@ -188,20 +219,67 @@ def r3_resample(ctx):
         ok = k0.equals(want_step)
         ctx.check(ok, f"resample ({arm}): every {'q-th' if arm == 'q > 1' else ''} sample is kept after the lag is removed", st, None if ok else repr(k0))
         ctx.check(add_m, f"resample ({arm}): the mean removed before filtering is added back", st)
-    # M is even and the padding is exactly M/2 on both sides
-    t = utext(fn)
-    ok = "M=2*pts*max(p,q)" in t and "nz=M//2" in t and "updata1=np.concatenate((z,updata1,z),axis=-1)" in t
-    ctx.check(ok, "resample: M = 2 pts max(p, q) is even, and M//2 zeros are added at both ends (so M samples of lag are removed and ln*p remain)", fn)
-    ok = "n=int(np.ceil(ln*p/q))" in t and "gf=math.gcd(p,q)" in t and "p=p//gf" in t and "q=q//gf" in t
-    ctx.check(ok, "resample: the ratio is reduced by gcd and the documented output length is ceil(ln p / q)", fn)
-    ok = "updata1[...,::p]=data-m" in t and "fir=p*w*s" in t
-    ctx.check(ok, "resample: zero stuffing places the (mean-removed) samples every p-th slot and the FIR gain is p (original samples are kept when upsampling)", fn)
+    # ---- the remaining clauses are decided on values (function evaluated on symbols; arms p > 1 and q > 1)
+    from .sem import Sem, place, and_binop
+    ib = OM.int_binop({})
+
+    def binop(node, a, b, ev):
+        r = ib(node, a, b, ev)
+        return r if r is not NotImplemented else and_binop(node, a, b, ev)
+
+    def cond(test, ev):
+        t = utext(test)
+        return {"p>1": True, "q>1": True, "tisNone": True, "getfir": False, "axis==-1": True}.get(t)
+
+    def zeros_call(node, ev):
+        # np.zeros(shape) with `shape` a list that is edited in place: the value is zeros(<the entries of shape stored so far>)
+        if dotted(node.func) == "np.zeros" and len(node.args) == 1 and isinstance(node.args[0], ast.Name) and node.args[0].id in getattr(ev, "buffers", ()):
+            snap = {}
+            for nm, ix, val, st in ev.cells:
+                if nm == node.args[0].id and not is_unknown(ix) and not is_unknown(val):
+                    snap[repr(ix)] = (ix, val)
+            parts = []
+            for k in sorted(snap):
+                parts += [snap[k][0], snap[k][1]]
+            return F.fn("zeros", node.args[0].id, *parts)
+        return NotImplemented
+
+    S0 = Sem(ctx, fn, run=False, binop=binop)
+    red_p, red_q = S0.E("p // math.gcd(p, q)"), S0.E("q // math.gcd(p, q)")
+    S = Sem(ctx, fn, cond=cond, binop=binop, call=zeros_call)
+    ok = S.same(S.env("p"), red_p) and S.same(S.env("q"), red_q)
+    ctx.check(ok, "resample: the ratio is reduced by gcd(p, q) before anything is derived from it", fn, None if ok else {"p": repr(S.env("p")), "q": repr(S.env("q"))})
+    ok = S.same(S.env("M"), "2 * pts * max(p, q)")
+    ctx.check(ok, "resample: M = 2 pts max(p, q) (even: M/2 is the FIR delay in samples)", fn, None if ok else repr(S.env("M")))
+    ok = S.same(S.env("n"), "int(np.ceil(ln * p / q))") and S.same(S.env("ln"), "np.atleast_1d(data).shape[axis]")
+    ctx.check(ok, "resample: the documented output length is ceil(ln p / q) with ln the input length along `axis`", fn, None if ok else repr(S.env("n")))
+    # padding: the array handed to lfilter is (z, stuffed, z) with z = M // 2 zeros along the last axis
+    cat = S.calls("np.concatenate")
+    lf_ = S.calls("signal.lfilter")
+    ok = len(cat) == 1 and len(lf_) == 1
+    if ok:
+        parts = cat[0][1][0] if cat[0][1] else None
+        ax = place(cat[0][1][1:], cat[0][2], ["axis"]).get("axis")
+        ok = isinstance(parts, tuple) and len(parts) == 3 and S.same(parts[0], parts[2]) and S.same(ax, "-1")
+        ok = ok and S.same(parts[0], F.fn("zeros", "shape", S.E("-1"), S.E("M // 2"))) and S.same(la_x(S, lf_), "updata1") and S.same(S.init("updata1"), S.ev.ev(cat[0][3]))
+        la = place(lf_[0][1], lf_[0][2], ["b", "a", "x", "axis"])
+        ok = ok and S.same(la.get("b"), "p * signal.windows.kaiser(M + 1, beta) * (2 * (min(1 / q, 1 / p) / 2) * np.sinc(2 * (min(1 / q, 1 / p) / 2) * (np.arange(M + 1) - M / 2)))") \
+            and S.same(la.get("a"), "1") and S.same(la.get("axis"), "-1")
+    dbg = None if ok or not (cat and lf_) else {"concatenate": repr(cat[0][1]), "lfilter": {k: repr(v)[:200] for k, v in place(lf_[0][1], lf_[0][2], ["b", "a", "x", "axis"]).items()}}
+    ctx.check(ok, "resample: M // 2 zeros are added at both ends of the stuffed signal before the FIR (gain p, Kaiser-windowed sinc with cut-off min(1/p, 1/q)/2 "
+                  "centred at M/2) is applied along the last axis - so M samples of lag are removed and ln*p remain", cat[0][3] if cat else fn, dbg)
+    cells = S.cells("updata1")
+    ok = len(cells) == 1 and S.same(cells[0][0], S.E("updata1[..., ::p]") and S.ev._index_value(ast.parse("x[..., ::p]", mode="eval").body.slice)) \
+        and S.same(cells[0][1], "np.atleast_1d(data) - np.mean(np.atleast_1d(data), axis=-1, keepdims=True)")
+    ini = S.init("updata1")
+    ctx.check(ok, "resample: zero stuffing places the (mean-removed) samples every p-th slot of a zero array (original samples are kept when upsampling)",
+              cells[0][2] if cells else fn, None if ok else [(repr(c[0]), repr(c[1])) for c in cells])
 
 
 RULES = [
     ("C19-R1", r1_area, 8),
     ("C19-R2", r2_interp, 4),
-    ("C19-R3", r3_resample, 9),
+    ("C19-R3", r3_resample, 11),
 ]
 LEVEL = "other"
 EXPLANATION = ("Static: psd.area's general formula is the exact integral of the log-log interpolant (symbolic identity), the special case is its s -> -1 limit and is "
